@@ -33,12 +33,12 @@ from ..models import globmatch as G
 
 PROP = 'C16'
 LEVEL = 'exploration'
-RULE = ('Seeded pattern lists (1..3, thorough 1..4 patterns of 1..5, thorough 1..7 tokens over literals a b c / . , the '
+RULE = ('Seeded pattern lists (1..3, thorough 1..4 patterns of 1..5, thorough 1..7 tokens over literals a b c A / . , the '
         'wildcards * ?, the escapes \\\\ \\* \\?, illegal escapes, regex metacharacters ( ) [ ] + | ^ $ { } - and, for '
         'direct globs_to_re use, blank/tab/newline) x names built as literal expansions of those patterns with 0..2 '
         'single-character edits (plus some random names); bounded-exhaustive sweeps of small pattern/name spaces; '
-        'documents with 1..5 (thorough 1..7) Files paragraphs interleaved with License paragraphs; histories of files '
-        're-assignments.  A (pattern list, name) evaluation is non-trivial when every pattern is legal, the list has '
+        'parsed and built documents with 1..5 (thorough 1..7) Files paragraphs interleaved with License paragraphs, 15% of '
+        'them over a pool of realistic path globs; histories of files re-assignments.  A (pattern list, name) evaluation is non-trivial when every pattern is legal, the list has '
         '>= 2 patterns or contains a wildcard, and the name is within edit distance 2 of a name the list matches '
         '(near miss or hit, not noise).')
 ASSUMPTIONS = ['vp.models.globmatch is a faithful model of the copyright-format 1.0 glob dialect as restated in the property '
@@ -62,10 +62,10 @@ FORMAT = 'https://www.debian.org/doc/packaging-manuals/copyright-format/1.0/'
 # workload sizes (TOTAL cases over all shards)
 
 SIZES = {
-    'para': (26000, 2600000),      # x ~6 names
-    'hist': (5000, 420000),        # x ~8 ops
-    'doc': (3600, 300000),         # x ~5 names x ~3 paragraphs
-    'raw': (4000, 330000),         # x ~5 names
+    'para': (64000, 2600000),      # x ~6 names
+    'hist': (12000, 480000),       # x ~8 ops
+    'doc': (9000, 360000),         # x ~5 names x ~3 paragraphs
+    'raw': (10000, 400000),        # x ~5 names
 }
 
 LIT = ['a', 'a', 'a', 'b', 'b', 'c', 'A', '/', '/', '.']
@@ -77,6 +77,10 @@ BADESC = ['\\.', '\\a', '\\/', '\\n', '\\[', '\\(', '\\-']
 WS = [' ', ' ', '\n', '\t']
 TEMPLATES = ['*', '*', 'debian/*', '*.c', 'a/*', '*/a', 'a/b', 'a/?', 'a.b', 'a*', '?', 'a', 'b/*.a', '*a*', 'a/b.c',
              'src/*', 'debian/rules', '\\*', 'a\\?', '??', '*/*']
+
+REAL_POOL = ['*', 'debian/*', 'debian/rules', 'setup.py', 'lib/debian/changelog.py', 'lib/debian/tests/test_*.py',
+             'examples/changelog/*', 'lib/debian/_arch_table.py', '*.po', 'docs/?.rst', 'docs/*.rst', 'src/*/Makefile.in',
+             'README', 'README.*', 'lib/deb822.py', 'lib/debian/deb822.py', 'po/??.po', 'data/\\*', 'what\\?.txt', 'a\\\\b/*']
 
 NAME_ALPHA = ['a', 'a', 'a', 'b', 'b', 'c', 'A', 'B', '/', '/', '.', '*', '?', '\\', '\n', '(', '[', '+', '|', '^', '$', ' ', '-']
 
@@ -236,12 +240,15 @@ def cases(ctx):
     for i in range(ctx.size(*SIZES['doc'])):
         nf = r.choice((1, 2, 2, 3, 3, 4, 5)) if not wide else r.choice((1, 2, 3, 3, 4, 5, 6, 7))
         illegal_ok = r.random() < 0.08
+        realistic = r.random() < 0.15
         paras, lists = [], []
         for j in range(nf):
             if r.random() < 0.3:
                 paras.append({'L': 1})
             if j == 0 and r.random() < 0.4:
                 pats = ['*']
+            elif realistic:
+                pats = r.sample(REAL_POOL, r.choice((1, 2, 3, 4)))
             else:
                 pats = gen_list(r, wide, illegal_ok=illegal_ok)
             paras.append({'F': pats, 'sep': r.choice((0, 0, 1, 2))})
@@ -600,12 +607,19 @@ def doc_queries(ctx, case, c, fps, lists, names, earlier_by_idx, phase):
 
 
 def _index_of(fps, obj):
+    """Which Files paragraph was returned: by identity, else by the unique id
+    every generated paragraph carries in its Copyright field."""
     if obj is None:
         return None
     for k, p in enumerate(fps):
         if p is obj:
             return k
-    return _MISS
+    try:
+        tag = obj.copyright
+        hits = [k for k, p in enumerate(fps) if p.copyright == tag]
+    except Exception:
+        return _MISS
+    return hits[0] if len(hits) == 1 else _MISS
 
 
 def run_doc(ctx, case):
@@ -673,6 +687,7 @@ def run_raw(ctx, case):
     ctx.evaluations += max(0, len(names) - 1)
     for name in names:
         check_matches(ctx, para, gl, name, {'kind': 'raw', 'pats': pats, 'names': [name]}, mk=_raw_fresh)
+        ctx.count('raw:matches-observed')
 
 
 def run_case(ctx, case):
@@ -696,7 +711,13 @@ def finish(ctx):
                                          % (ln, pa, pl, na, nl) for (pa, pl, ln, na, nl) in _enum_specs(ctx.tier)]
 
 
-FLOORS = {'quick': {'nontrivial': 2, 'monitors': {}, 'counters': {}},
+# ~50% of what a run on the current tree measures (seed 0)
+FLOORS = {'quick': {'nontrivial': 240000,
+                    'monitors': {'M.match': 350000, 'M.find': 36000, 'M.error': 13000, 'M.stale': 13000},
+                    'counters': {'nontrivial:near-miss': 160000, 'nontrivial:hit': 130000,
+                                 'find:several-paragraphs-match': 7000, 'op:find-after-reassign': 11000,
+                                 'op:match-after-2+-unobserved-assignments': 2000,
+                                 'raw:list-with-whitespace': 2400, 'enum:evaluations': 15000}},
           'thorough': {'nontrivial': 2, 'monitors': {}, 'counters': {}}}
 
 LEVEL_TEXT = ('Runtime monitoring: seeded hostile pattern lists and near-miss names (literal expansions of the patterns with '
